@@ -181,11 +181,27 @@ HsServerDone(sc) ==
     /\ cc # 0
     \* XX: the server is done when it has read act 3; KK: when it has written
     \* act 2 (having read act 1)
-    /\ IF conns[sc].pat = "XX" THEN conns[cc].noise = "up" ELSE HsCompatible(cc, sc)
+    /\ IF conns[sc].pat = "XX" THEN conns[cc].noise \in {"up", "rej"}
+       ELSE HsCompatible(cc, sc)
     /\ conns' = [conns EXCEPT ![sc].noise = "up"]
     /\ remote' = IF v2 THEN [remote EXCEPT ![Srv] = c] ELSE remote
     /\ everUp' = everUp \cup {c}
     /\ UNCHANGED <<psid, mc, pc, nConns, boxes, closes, v2>>
+
+\* The pairing client ran its XX handshake to the end - act 3 written, the
+\* server's key stored (ConnData.SetRemote) - and then its auth-data callback
+\* refused the payload (ConnData.SetAuthData hands the callback's error on):
+\* Machine.DoHandshake fails on the client, which closes the connection, but
+\* the key stays.  The server can still read act 3 and complete; from then
+\* on both are on the key-derived rendezvous.
+HsClientRejects(cc) ==
+    LET sc == conns[cc].peer  c == conns[cc].owner IN
+    /\ cc \in 1..nConns /\ c \in Clients /\ IsOpen(cc) /\ conns[cc].noise = "hs"
+    /\ sc # 0 /\ HsCompatible(cc, sc) /\ conns[cc].pat = "XX" /\ IsOpen(sc)
+    /\ closes < MaxCloses /\ closes' = closes + 1
+    /\ conns' = [conns EXCEPT ![cc].noise = "rej", ![cc].st = "closed"]
+    /\ remote' = IF v2 THEN [remote EXCEPT ![c] = Srv] ELSE remote
+    /\ UNCHANGED <<psid, mc, pc, nConns, boxes, everUp, v2>>
 
 \* both ends of an XX handshake in one step (trace validation: the two ends
 \* report from different goroutines, the server's line may overtake the
@@ -245,6 +261,9 @@ PeerDown(i) ==
     /\ i \in 1..nConns /\ IsOpen(i)
     /\ \/ j # 0 /\ ~IsOpen(j)
        \/ j = 0                                     \* nobody answered
+    \* the last act of a client that refused the auth data is on its way: its
+    \* loss is the half-pairing fault
+    /\ HalfPairFaults \/ ~(j # 0 /\ conns[j].noise = "rej" /\ conns[i].noise = "hs")
     /\ conns' = [conns EXCEPT ![i].st = "closed"]
     /\ UNCHANGED <<remote, psid, mc, pc, nConns, boxes, closes, everUp, v2>>
 
@@ -252,7 +271,7 @@ Next ==
     \/ \E p \in Parties : Call(p) \/ Wake(p) \/ SidStep(p) \/ ConnErr(p)
     \/ \E c \in Clients : CDialRet(c)
     \/ \E i \in 0..nConns : SAcceptRet(i)
-    \/ \E i \in 1..nConns : HsClientDone(i) \/ HsServerDone(i)
+    \/ \E i \in 1..nConns : HsClientDone(i) \/ HsServerDone(i) \/ HsClientRejects(i)
                             \/ HsFail(i) \/ Close(i) \/ PeerDown(i)
 
 Spec == Init /\ [][Next]_vars
